@@ -9,6 +9,7 @@ import (
 	"fmt"
 	"hash/fnv"
 	"os"
+	"os/exec"
 	"sort"
 	"time"
 )
@@ -83,6 +84,7 @@ type Env struct {
 	Deadline time.Time
 	Data     map[string]any // per-prop fixtures
 	Tools    map[string]string
+	Self     string // path of this binary (for fresh-process re-confirmation)
 }
 
 func (e *Env) Thorough() bool { return e.Tier == "thorough" }
@@ -198,6 +200,14 @@ func RunWorker(p *Prop, env *Env) *WorkerResult {
 					}
 				}
 			}
+			if fc.Repro < 5 && env.Self != "" {
+				// the case may depend on what this process did before (a cache, a mutated global):
+				// the arbiter is a fresh process, which is also what `check replay` gives
+				if freshRepro(p, env, raw, v.Sig) {
+					fc.Repro = 5
+					fc.Detail += "\n(reproduced 3/3 in fresh processes; in this worker process, after other cases, it reproduced " + fmt.Sprint(fc.Repro) + "/5 times)"
+				}
+			}
 			if fc.Repro == 5 {
 				found[v.Sig] = fc
 			} else {
@@ -222,6 +232,65 @@ func RunWorker(p *Prop, env *Env) *WorkerResult {
 	sort.Slice(res.Found, func(i, j int) bool { return res.Found[i].Index < res.Found[j].Index })
 	res.WallS = time.Since(start).Seconds()
 	return res
+}
+
+// freshRepro runs the case three times, each in a new process, and reports
+// whether every run raises the signature.
+func freshRepro(p *Prop, env *Env, raw json.RawMessage, sig string) bool {
+	dir, err := os.MkdirTemp(env.Scratch, "fresh-")
+	if err != nil {
+		return false
+	}
+	defer os.RemoveAll(dir)
+	cf := dir + "/case.json"
+	if err := os.WriteFile(cf, raw, 0o644); err != nil {
+		return false
+	}
+	for i := 0; i < 3; i++ {
+		out, err := exec.Command(env.Self, "casecheck", p.ID, env.Tier, cf, dir+fmt.Sprintf("/s%d", i)).Output()
+		if err != nil {
+			return false
+		}
+		var sigs []string
+		if json.Unmarshal(out, &sigs) != nil {
+			return false
+		}
+		hit := false
+		for _, s := range sigs {
+			if s == sig {
+				hit = true
+			}
+		}
+		if !hit {
+			return false
+		}
+	}
+	return true
+}
+
+// CaseCheck runs one case in this (fresh) process and prints the signatures it raises.
+func CaseCheck(p *Prop, env *Env, caseFile string) int {
+	raw, err := os.ReadFile(caseFile)
+	if err != nil {
+		return 2
+	}
+	if p.Setup != nil {
+		if err := p.Setup(env); err != nil {
+			return 2
+		}
+	}
+	c, err := p.Decode(raw)
+	if err != nil {
+		return 2
+	}
+	out := p.Check(env, c)
+	sigs := []string{}
+	for _, v := range out.Violations {
+		sigs = append(sigs, v.Sig)
+	}
+	b, _ := json.Marshal(sigs)
+	fmt.Println(string(b))
+	return 0
 }
 
 // WriteJSON writes v to path atomically.
